@@ -210,6 +210,11 @@ class Reader:
             return int(tok)
         except ValueError:
             pass
+        if len(tok) > 2 and tok[0] == "#" and tok[1] in "xXoObB":
+            try:
+                return int(tok[2:], {"x": 16, "o": 8, "b": 2}[tok[1].lower()])
+            except ValueError:
+                pass
         try:
             if any(ch.isdigit() for ch in tok):
                 return float(tok)
@@ -593,20 +598,20 @@ class Interp:
             r -= x
         return r
 
-    def fn_gteq(self, a, b):
-        return T if a >= b else NIL
+    def fn_gteq(self, *a):
+        return T if all(x >= y for x, y in zip(a, a[1:])) else NIL
 
-    def fn_lteq(self, a, b):
-        return T if a <= b else NIL
+    def fn_lteq(self, *a):
+        return T if all(x <= y for x, y in zip(a, a[1:])) else NIL
 
-    def fn_gt(self, a, b):
-        return T if a > b else NIL
+    def fn_gt(self, *a):
+        return T if all(x > y for x, y in zip(a, a[1:])) else NIL
 
-    def fn_lt(self, a, b):
-        return T if a < b else NIL
+    def fn_lt(self, *a):
+        return T if all(x < y for x, y in zip(a, a[1:])) else NIL
 
-    def fn_eq(self, a, b):
-        return T if a == b else NIL
+    def fn_eq(self, *a):
+        return T if all(x == y for x, y in zip(a, a[1:])) else NIL
 
     def fn_not(self, a):
         return T if a is NIL else NIL
